@@ -28,6 +28,9 @@ def elem(lv, dtype, pos=0, narrow=False):
     """literal for an element; narrow: every other literal is written in a narrower type than declared
     (an INT in a float array, a FLOAT / INT in a complex array)"""
     if dtype == "int":
+        if narrow and pos % 2 == 1:
+            # a float-valued entry in an int array (true division; converted to the element type like a scalar initialiser)
+            return "%s/%s" % (lv.int(), lv.int()) if pos % 4 == 1 else lv.float()
         return lv.int()
     if dtype == "float":
         return lv.int() if (narrow and pos % 2 == 0) else lv.float()
@@ -145,6 +148,9 @@ def gen_specs(tier, seed):
     for sp in specs:
         if sp[0] == "array" and len(sp) == 6 and sp[1] in ("float", "complex") and len(set(sp[2])) == 1 and sp[3] in ("none", "exact") and sum(sp[2]) >= 2:
             extra.append(sp + ("narrow",))
+        # int arrays with float-valued entries among integer literals (every element is converted on its own)
+        if sp[0] == "array" and len(sp) == 6 and sp[1] == "int" and len(set(sp[2])) == 1 and sp[3] in ("none", "exact") and 2 <= sum(sp[2]) <= 6 and len(sp[4]) <= 1:
+            extra.append(sp + ("narrow",))
     return specs + extra
 
 
@@ -157,7 +163,8 @@ def main():
                   "parameters per array": "<=2 (quick) / <=3 all positions (thorough)", "index": "A[k], k symbolic in range"}
     rep.assumptions = [
         "floats are reals; element kinds compared exactly",
-        "type-compatible initialisers only (int<-int, float<-int/float, complex<-any numeric); complex into int/float is C11's",
+        "type-compatible initialisers only (int<-int, float<-int/float, complex<-any numeric; int arrays also with float-valued entries, truncated like an int scalar); complex into int/float is C11's",
+        "an integer converted to a double is exact up to 2**53 and an unconstrained double beyond (terms.to_f64): precision loss by a needless int->float->int trip shows; arithmetic itself is over the reals",
         "rejection = any exception (the property fixes no class for shape/ragged errors)",
         "reference: bbverif/ref/interp.py arrayvar/scalarvar; stubs: bbverif/pysym/stubs.py",
     ]
